@@ -426,4 +426,15 @@ example :
     let h : Handler := ⟨[⟨.pk, 0, false⟩, ⟨.ko, 1, true⟩], []⟩
     reqKw h.sig = [] ∧ handlerInvocationPinned (some h) (.pos 1) = .ok (.pos 1) := by decide
 
+/-- hence on the pinned code an accepted call that Python cannot bind (outside the known-finding
+    family) always involves a keyword-only parameter without default: F16 is one family, and
+    the DESIGN §1 inputs are its minimal members. -/
+theorem pinned_unsound_only_with_required_kwonly (h : Handler) (hwf : HandlerWF h) (args : Args)
+    (c : Call) (hok : handlerInvocationPinned (some h) args = .ok c)
+    (hnc : collides h args = false) (hub : bindable h c = false) : reqKw h.sig ≠ [] := by
+  intro hk
+  rw [pinned_agrees_without_required_kwonly h args hk] at hok
+  rw [sound_partial h hwf args c hok hnc] at hub
+  simp at hub
+
 end Aiorpcx.C19
